@@ -59,6 +59,8 @@ void slu_mt_verif_lusup(int_t jcol, int_t fsupc, int_t new_end, pxgstrf_shared_t
 }
 #endif
 #ifdef VH_CBMC
+/* message formatting of the abort macro: no effect on the checked behaviour */
+int sprintf(char *s, const char *f, ...) { return 0; }
 char *getenv(const char *name)
 {
 #ifdef VH_GETENV_NONNULL
